@@ -145,6 +145,52 @@ fn exercise(tree: &Tree, game: &tree::G) -> Result<(), String> {
     Ok(())
 }
 
+/// pad the infoset of the first several-action decision node (at every node of that infoset with the same action list)
+/// with 65 535 terminal actions after the first action; None when the tree has no such node or the infoset is large
+fn widen(tree: &Tree) -> Option<Tree> {
+    use crate::tree::{Num, PKid};
+    fn first(t: &Tree) -> Option<(u8, String, usize)> {
+        match t {
+            Tree::T { .. } => None,
+            Tree::C { kids, .. } => kids.iter().find_map(|k| first(&k.t)),
+            Tree::P { pl, info, kids } => {
+                if kids.len() >= 2 {
+                    Some((*pl, info.clone(), kids.len()))
+                } else {
+                    kids.iter().find_map(|k| first(&k.t))
+                }
+            }
+        }
+    }
+    fn count(t: &Tree, pl0: u8, info0: &str) -> usize {
+        match t {
+            Tree::T { .. } => 0,
+            Tree::C { kids, .. } => kids.iter().map(|k| count(&k.t, pl0, info0)).sum(),
+            Tree::P { pl, info, kids } => (if *pl == pl0 && info == info0 { 1 } else { 0 }) + kids.iter().map(|k| count(&k.t, pl0, info0)).sum::<usize>(),
+        }
+    }
+    fn pad(t: &Tree, pl0: u8, info0: &str, len0: usize) -> Tree {
+        match t {
+            Tree::T { .. } => t.clone(),
+            Tree::C { ci, kids } => Tree::C { ci: ci.clone(), kids: kids.iter().map(|k| crate::tree::CKid { w: k.w.clone(), t: pad(&k.t, pl0, info0, len0) }).collect() },
+            Tree::P { pl, info, kids } => {
+                let mut ks: Vec<PKid> = kids.iter().map(|k| PKid { a: k.a.clone(), t: pad(&k.t, pl0, info0, len0) }).collect();
+                if *pl == pl0 && info == info0 && kids.len() == len0 {
+                    let rest = ks.split_off(1);
+                    ks.extend((0..65535).map(|i| PKid { a: format!("pad{i}"), t: Tree::T { pay: Num::I(0) } }));
+                    ks.extend(rest);
+                }
+                Tree::P { pl: *pl, info: info.clone(), kids: ks }
+            }
+        }
+    }
+    let (pl0, info0, len0) = first(tree)?;
+    if count(tree, pl0, &info0) > 3 {
+        return None;
+    }
+    Some(pad(tree, pl0, &info0, len0))
+}
+
 pub fn replay(args: &Args) {
     let cases = util::read_ndjson(args.get("exp"));
     let mut out = Out::create(args.get("out"));
@@ -225,6 +271,29 @@ pub fn replay(args: &Args) {
                     bad.push(json!({"class": "kind", "what": "error names a rule the tree does not violate", "observed": kind, "rules": rules}));
                 } else if kind != model_err {
                     dev = true;
+                }
+            }
+        }
+        // WIDTH: the same tree with 65 535 fresh terminal actions inserted after the first action at every node of one
+        // several-action infoset (no rule of the contract mentions how many actions there are, so the verdict must be the
+        // one TLC computed for the tree as it was; the second action now has index 65 536)
+        if n % 331 == 7 || rules.iter().any(|r| r == "R7") && n % 17 == 0 {
+            if let Some(wide) = widen(&tree) {
+                let res = util::catch(move || tree::build(&wide).map(|_| ()).map_err(|e| format!("{e:?}")));
+                match res {
+                    Err(msg) => bad.push(json!({"class": "wide", "what": "from_root panicked on the tree with a 65 537-action infoset", "observed": msg})),
+                    Ok(Ok(())) => {
+                        if !rules.is_empty() {
+                            bad.push(json!({"class": format!("wide:accepts:{}", rules_sorted.join("+")), "what": "accepted a tree outside the documented class once an infoset was padded to 65 537 actions", "rules": rules}));
+                        }
+                    }
+                    Ok(Err(kind)) => {
+                        if rules.is_empty() {
+                            bad.push(json!({"class": "wide:rejects", "what": "rejected a tree of the documented class once an infoset was padded to 65 537 actions", "observed": kind}));
+                        } else if !kinds.contains(&kind.as_str()) {
+                            bad.push(json!({"class": "wide:kind", "what": "error names a rule the padded tree does not violate", "observed": kind, "rules": rules}));
+                        }
+                    }
                 }
             }
         }
